@@ -39,6 +39,7 @@ pub fn c09_registry_prefix_and_label_names_validated() {
     vcover!(kp == 2, "c09.reg: prefix starting with a digit");
     assert!(r.is_ok() == (prefix_ok && label_ok), "C09 registry prefix and common label names are validated, so every gathered name is well-formed");
     std::mem::forget(r);
+    vcover!(true, "end of harness reached");
 }
 
 struct One(Desc);
@@ -65,6 +66,7 @@ pub fn c09_registry_common_label_clash_refused() {
     assert!(r.is_ok() == !clash, "C09 a metric whose label repeats a registry common label is refused (labels stay pairwise distinct)");
     std::mem::forget(r);
     std::mem::forget(core);
+    vcover!(true, "end of harness reached");
 }
 
 pub fn dispatch(name: &str) -> Option<fn()> {
